@@ -320,7 +320,7 @@ def run_unit(u, repo, tier, seed, relock=False, prop=None):
                         o["witness"] = npb
                         o["detail"] += "\ncounterexample executed natively (cargo kani playback): test %s FAILED: %s" % (npb["test_name"], npb.get("panic"))
                     elif npb:
-                        o["detail"] += "\nnative execution of Kani's counterexample did not fail: %s" % json.dumps(npb)[:400]
+                        o["detail"] += "\nnative execution of Kani's counterexample did not fail: %s" % json.dumps({k: v for k, v in npb.items() if k != "unit_test"})[:600]
                 if u.get("replay_native"):
                     import witness
                     d = witness.run_native(repo, u["replay_native"], "%s:%s" % (name, h["name"]), seed,
